@@ -38,3 +38,14 @@ Definition text_spec (T : bytes) : bytes := snd (span ascii_ws T).
 Definition p_open : bytes := bs "<p>".
 Definition p_close : bytes := bs "</p>".
 Definition doc_spec (T : bytes) : bytes := p_open ++ text_spec T ++ p_close.
+
+(* ---- several lines: the content `\nL1\nL2...\nLn\n<indentation>` of `<p>...</p>`, every Li a line of the fragment (its own
+   indentation is its leading white space).  A line break together with the white space after it is one space between two
+   lines and nothing in front of the first and behind the last line; every other byte stands as it is. *)
+Fixpoint join_sp (l : list bytes) : bytes :=
+  match l with
+  | [] => []
+  | x :: r => match r with [] => x | _ => x ++ [x20] ++ join_sp r end
+  end.
+Definition lines_spec (Ls : list bytes) : bytes := join_sp (map text_spec Ls).
+Definition doc_spec_lines (Ls : list bytes) : bytes := p_open ++ lines_spec Ls ++ p_close.
